@@ -32,6 +32,7 @@ def check(ctx, R):
     _io(ctx, R, T, cls, "bulk_read", "bulkRead", "_read_endpoint", "UsbReadFailedError")
     _io(ctx, R, T, cls, "bulk_write", "bulkWrite", "_write_endpoint", "UsbWriteFailedError")
     _timeout_ms(ctx, R, T, cls)
+    _handle_typestate(ctx, R, cls)
     _interface(ctx, R, T, cls)
     _device(ctx, R, T)
     from .c12 import _transport_close
@@ -39,6 +40,38 @@ def check(ctx, R):
     arg_rule(ctx, R, "usb", "ARG-usb", min_count=3)
     R.assume("usb1 (libusb1) behaves per its documentation: bulkRead(endpoint, length, timeout=ms) returns at most `length` bytes, bulkWrite returns the count")
     R.undecided("behaviour of libusb and whole device sessions over it are outside the source")
+
+
+def _handle_typestate(ctx, R, cls):
+    """A closed libusb handle is never left in `self._transport`: after `<handle>.close()` every path out of the method - exceptions included -
+    resets the attribute to None (the `is None` guards of bulk_read / bulk_write / close are what turns use after close into the documented
+    errors; a closed handle that is still bound gets used)."""
+    n_sites = 0
+    for f in cls.methods.values():
+        if not f.params:
+            continue
+        g = ctx.cfg(f)
+        selfn = f.params[0]
+        hk = selfn + "._transport"
+        aliases = {hk}
+        for n in g.live_nodes():
+            a = n.ast
+            if n.kind == "stmt" and isinstance(a, ast.Assign) and len(a.targets) == 1:
+                tk, vk = varkey(a.targets[0]), varkey(unawait(a.value))
+                if tk == hk and vk and "." not in vk:
+                    aliases.add(vk)
+                if vk == hk and tk and "." not in tk:
+                    aliases.add(tk)
+        clears = [n for n in g.nodes if n.kind == "stmt" and isinstance(n.ast, ast.Assign) and any(varkey(t) == hk for t in n.ast.targets)
+                  and isinstance(n.ast.value, ast.Constant) and n.ast.value.value is None]
+        for n in g.live_nodes():
+            for c in node_calls(n):
+                if call_attr(c) == "close" and varkey(unawait(c.func.value)) in aliases:
+                    n_sites += 1
+                    r = g.reach([n], avoid=clears, exc=True)
+                    R.check(g.exit not in r and g.raise_exit not in r, "HANDLE", "%s|%s" % (f.qualname, norm_stmt(n.ast)[:50]), "after the handle is closed the attribute is reset on every path out",
+                            "%s closes the libusb handle but can leave the method (normally or by an exception) with `self._transport` still bound to it: later calls pass the `is None` guard and use a closed handle" % f.qualname, f.loc(n.ast))
+    R.count("HANDLE", n_sites, 1)
 
 
 def _connect(ctx, R, T, cls):
